@@ -16,10 +16,11 @@ import (
 // the last token) are executed against the entry points.
 
 type tok struct {
-	Slot  int `json:"slot"`  // >= 0: optional slot index; -1/-2/-3: junk kinds
-	L     int `json:"len"`   // declared content length
-	Pat   int `json:"pat"`   // content pattern
-	Avail int `json:"avail"` // 0 exact, 1 one octet short, 2 no content
+	Slot  int    `json:"slot"`          // >= 0: optional slot index; -1/-2/-3: junk kinds
+	L     int    `json:"len"`           // declared content length
+	Pat   int    `json:"pat"`           // content pattern
+	Avail int    `json:"avail"`         // 0 exact, 1 one octet short, 2 no content
+	Raw   string `json:"raw,omitempty"` // explicit content octets (structured-content family); L is then their number
 }
 
 // codecBytes is the literal replay case.
@@ -86,6 +87,12 @@ func renderBody(m *bind.Msg, s *bind.Slot, t tok) []byte {
 		n--
 	case 2:
 		n = 0
+	}
+	if t.Raw != "" {
+		if n > len(t.Raw) {
+			n = len(t.Raw)
+		}
+		return append(out, t.Raw[:n]...)
 	}
 	for i := 0; i < n; i++ {
 		out = append(out, patByte(m, t.Pat, i))
@@ -321,6 +328,8 @@ func (x *codecExplorer) entries(m *bind.Msg) []string {
 func (x *codecExplorer) run1(m *bind.Msg, data []byte) {
 	for _, e := range x.entries(m) {
 		x.execs++
+		e := e
+		x.c.SetSub("bytes", func() any { return describeCase(m, e, data) })
 		x.exec(m, e, data)
 	}
 }
@@ -494,9 +503,10 @@ func (x *codecExplorer) explore() {
 				x.maxDepth = 3
 			}
 		}
-		// remaining-length family and dependency-directed family (codec_tail.go)
+		// remaining-length family, dependency-directed family, structured-content family (codec_tail.go)
 		x.tailFamily(m)
 		x.depFamily(m)
+		x.contentFamily(m)
 		// depth 1: full token alphabet
 		full1 := optTokens(m, true)
 		min1 := optTokens(m, false)
@@ -509,6 +519,7 @@ func (x *codecExplorer) explore() {
 				min2 = append(min2, tok{Slot: i, L: sl.Min + 2, Pat: 1})
 			}
 		}
+		x.repetitionFamily(m, min2)
 		for _, t1 := range full1 {
 			if !x.mine() {
 				continue
